@@ -404,7 +404,11 @@ def stage_prebuilt(t, sim, op: dict):
     buf = io.BytesIO()
     pq.write_table(pa.Table.from_pylist(rows, schema=arrow), buf)
     content = buf.getvalue()
-    name = "pre_" + op["tag"].replace(".", "_") + ".parquet"
+    # `name`: basename chosen by the caller (partitioned layouts use the SAME basename in every directory);
+    # `dir`: sub-directory of data/ the file lives in
+    name = (op.get("name") or ("pre_" + op["tag"].replace(".", "_"))) + ".parquet"
+    if op.get("dir"):
+        name = f"{op['dir']}/{name}"
     t.storage.write_file(f"data/{name}", content)
     if op.get("age"):
         sim.sleep(op["age"])
